@@ -216,9 +216,14 @@ side_by_side_tiff_start(struct Storage* self_) noexcept
                 .is_ref = 1,
             };
             CHECK(self->tiff);
+            // This writer plays the HAL's part for the inner tiff writer: it
+            // must keep the inner device's state up to date, the inner writer
+            // finalises and closes its file only when it is Running.
             state = self->tiff->set(self->tiff, &props);
+            self->tiff->state = state;
             CHECK(state == DeviceState_Armed);
             state = self->tiff->start(self->tiff);
+            self->tiff->state = state;
             CHECK(state == DeviceState_Running);
         }
 
